@@ -47,8 +47,12 @@ def patched_include(workdir):
 
 
 def dump(tu_text, workdir, name, filt="PhQ", extra_flags=(), tolerate=None, inc=None):
-    """tolerate: list that receives clang's error lines instead of raising (the AST is still dumped;
+    """NOTE: dumps of one TU taken with different filters are merged by node id (a heap address, ASLR off); the ids are only
+    identical if the filter strings have the same length - use three-character filters only ('PhQ', 'has', 'abs', ...).
+    tolerate: list that receives clang's error lines instead of raising (the AST is still dumped;
     declarations clang marks invalid are not lowered and are reported as outside the subset)."""
+    if filt and len(filt) != 3:
+        raise AstError("ast-dump filters must be three characters long (node ids of merged dumps): %r" % filt)
     os.makedirs(workdir, exist_ok=True)
     src = os.path.join(workdir, name + ".cpp")
     out = os.path.join(workdir, name + ("" if filt == "PhQ" else "." + re.sub(r"\W+", "_", filt or "all")) + ".json")
